@@ -443,6 +443,28 @@ pub fn judge(fx: &Fixture, bytes: &[u8], kind: &str, shape: &str, col: &Collecto
                 if msk != fresh {
                     return Err(Fail::new("msk-modified-by-failed-refresh", format!("{kind}: refresh refused the forgery but modified the master key")));
                 }
+                // the same in-memory master key first refreshes the genuine key the forgery was
+                // made from, then sees the forgery: what it learnt from the first call must not
+                // vouch for the second
+                if let Some((_, genuine, _)) = fx.issued.iter().find(|(n, _, _)| n == shape) {
+                    let mut msk = fresh;
+                    let mut g = genuine.clone();
+                    if with_cc(|cc| cc.refresh_usk(&mut msk, &mut g, keep)).is_ok() {
+                        let before: MasterSecretKey = de(&ser(&msk)?).map_err(|e| Fail::new("msk-snapshot-unreadable", e))?;
+                        let mut k = forged.clone();
+                        col.class("forgeries:presented-after-the-genuine-key");
+                        match with_cc(|cc| cc.refresh_usk(&mut msk, &mut k, keep)) {
+                            Err(_) => {
+                                if k != forged || msk != before {
+                                    return Err(Fail::new("forged-key-or-msk-modified-by-failed-refresh", format!("{kind}: refresh (after a refresh of the genuine key) refused the forgery but modified it or the master key")));
+                                }
+                            }
+                            Ok(()) => {
+                                return Err(Fail::new(format!("forged-key-accepted-after-genuine:{kind}"), format!("refresh_usk(keep={keep}) refused a forged user key ({kind}) of key shape [{shape}] presented alone, but accepted it after the same master key object had refreshed the genuine key")));
+                            }
+                        }
+                    }
+                }
             }
             Ok(()) => {
                 // accepted. Is it the listed finding? same unframed MAC input stream + same signature as an issued key
